@@ -16,6 +16,7 @@ import tempfile
 import time
 from concurrent.futures import ThreadPoolExecutor
 
+KEEP = False
 HERE = os.path.dirname(os.path.dirname(os.path.abspath(__file__)))
 REPO = os.environ.get("VERIF_REPO_BASE", "/repo")
 
@@ -44,6 +45,13 @@ def run_one(mut, prop, tier, jobs, seed):
         out = p.stdout + p.stderr
         viol = [l for l in out.splitlines() if l.startswith("VIOLATION")]
         labels = sorted({l.split(":")[1].strip() for l in out.splitlines() if l.startswith("violation:")})
+        if KEEP and p.returncode == 1:
+            import glob
+            files = sorted(glob.glob(os.path.join(root, "replays", prop, "*.json")), key=os.path.getsize)
+            if files:
+                dst = os.path.join(HERE, "known", prop)
+                os.makedirs(dst, exist_ok=True)
+                shutil.copy(files[0], os.path.join(dst, f"regress-{mut['name']}.json"))
         return {"mutant": mut["name"], "property": prop, "exit": p.returncode, "caught": p.returncode == 1 and bool(viol),
                 "labels": labels[:6], "wall_s": round(time.time() - t0, 1), "tail": out[-600:] if p.returncode != 1 else ""}
     finally:
@@ -59,7 +67,10 @@ def main():
     ap.add_argument("--parallel", type=int, default=4)
     ap.add_argument("--seed", type=int, default=1)
     ap.add_argument("--out", help="results file name under mutants/ (default results.json)")
+    ap.add_argument("--keep", action="store_true", help="keep the smallest shrunk replay as known/<ID>/regress-<mutant>.json (a must-pass regression on the real tree)")
     a = ap.parse_args()
+    global KEEP
+    KEEP = a.keep
     muts = []
     import glob
     for f in sorted(glob.glob(os.path.join(HERE, "mutants", "*.json"))):
